@@ -133,7 +133,7 @@ theorem prepare_spec (o : Oracle W) (w : W) (t : FdTable) (b : Body) : PrepSpec 
   unfold prepare
   cases b with
   | nulPath => exact .inr ⟨_, rfl, Equiv.refl _⟩
-  | fileCs op path =>
+  | fileCs op path st =>
     simp only
     split
     · exact openNormalFile_spec ..
